@@ -33,7 +33,9 @@ RULE = ("texts for both assemblers: (1) valid programs rendered from generated A
         "MemorySizeException / MemoryAddressError only when the text can exceed the memory (>= 1300 lines or a >= 2^20 "
         "literal); 120 s watchdog. (4) programs that fault at run time in both modes: only InstructionExecutionException, "
         "address = pc of the failing instruction (ISA reference), instruction_repr = repr of the instruction stored there; "
-        "TOY programs never raise. non-trivial = the text raises (any type) / the program faults; distinct = hash(text)")
+        "TOY programs never raise. non-trivial = the text raises (any type) / the program faults; distinct = hash(text)"
+        ' Every text is loaded a second time into the same simulation (same verdict, same line); run-time failures are '
+        'also generated behind data caches (an access pushed across a word boundary or out of range).')
 ASSUMPTIONS = [
     "the parser's notion of a line is str.splitlines()",
     "a size/address error counts as legitimate only for texts with >= 1300 lines or a numeric literal >= 2^20",
